@@ -464,3 +464,19 @@ Proof.
   - unfold sorted; cbn. repeat constructor.
   - repeat (constructor; [split; cbn; [lia|reflexivity]|]). constructor.
 Qed.
+
+(* ------------------------------------------------------------------------------------------- *)
+(* the assertion keys of lra_theory                                                            *)
+(* ------------------------------------------------------------------------------------------- *)
+Theorem asrt_key_inj s g c s' g' c' : icanon c -> icanon c' -> asrt_key s g c = asrt_key s' g' c' -> s = s' /\ g = g' /\ c = c'.
+Proof.
+  intros Hc Hc' E. unfold asrt_key in E. cbn in E. inversion E as [E'].
+  assert (N : forall (b : bool) t, nhead is_digit ((if b then " >= " else " <= ") ++ t)) by (intros [] t; reflexivity).
+  destruct (span_unique is_digit _ _ _ _ (str_N_digits s) (str_N_digits s') (N g _) (N g' _) E') as [P Q].
+  apply str_N_inj in P. destruct g, g'; cbn in Q; inversion Q as [Q']; try discriminate Q.
+  - apply irat_to_string_inj in Q'; auto.
+  - apply irat_to_string_inj in Q'; auto.
+Qed.
+
+Example asrt_key_example : asrt_key 5%N false (mk_irat (mk_rat 3 1) (mk_rat (-1) 1)) = "x5 <= 3 - ε".
+Proof. reflexivity. Qed.
